@@ -52,6 +52,11 @@ def replay_path(prop, tag):
 def check(prop, tier, seed):
     t0 = time.time()
     mod = load_prop(prop)
+    rdir = os.path.join(C.BUILD, "replay")
+    if os.path.isdir(rdir):
+        for f in os.listdir(rdir):
+            if f.startswith(prop + "-"):
+                os.remove(os.path.join(rdir, f))
     violations = []  # (replay file, no_failing_input_found)
     known_lines = []
     notes = []
